@@ -82,6 +82,8 @@ func validDoc(r *run, kind string) *simrt.SimFile {
 	return f
 }
 
+var jsonKey = regexp.MustCompile(`"[a-z_]+":`)
+
 var b64Run = regexp.MustCompile(`[A-Za-z0-9+/]{8,}={0,2}`)
 
 func segments(f *simrt.SimFile) [][]byte {
@@ -152,6 +154,24 @@ func mutate(r *run, f *simrt.SimFile, other *simrt.SimFile) []byte {
 			lines[li] = bytes.Join(fields, []byte(","))
 			data = bytes.Join(lines, nil)
 			r.stats["fault.emptied-field"]++
+		}
+	}
+	if bytes.HasPrefix(data, []byte("{")) && t.Prob(1, 4) {
+		// value-level damage of a JSON document: the value of one key replaced by a short token of another shape
+		// (a producer of the documented layout that writes a number where a string belongs, an empty value, ...)
+		if locs := jsonKey.FindAllIndex(data, 64); len(locs) > 0 {
+			end := locs[t.Choose(len(locs))][1]
+			rest := data[end:]
+			n := len(rest)
+			if i := bytes.Index(rest, []byte(`,"`)); i >= 0 {
+				n = i
+			}
+			if i := bytes.Index(rest, []byte("}\n")); i >= 0 && i < n {
+				n = i
+			}
+			repl := []string{"5", "0", `""`, `"`, "{}", "[]", "null", "true", "-", "1e9", `"x"`, ""}[t.Choose(12)]
+			data = append(append(append([]byte(nil), data[:end]...), repl...), rest[n:]...)
+			r.stats["fault.json-value-replaced"]++
 		}
 	}
 	if t.Prob(1, 4) {
